@@ -9,6 +9,7 @@ import (
 
 	r "github.com/Trisia/randomness"
 
+	"verif/checks/c18"
 	"verif/common"
 	"verif/refmodel"
 )
@@ -132,11 +133,31 @@ func Run(ctx *common.Ctx) int {
 		}
 		mu.Unlock()
 	})
+	// the same function while other goroutines evaluate it for other shapes (the parallel workflows and the batch tool
+	// do exactly that): Igamc with integer and half-integer shapes, the uniformity statistic and two chi-square
+	// runners as concurrent pairs and triples under the controlled scheduler - each result must equal the solitary one
+	concExecs := 0
+	if m, _, err := c18.PairsOf(ctx, []string{"Igamc(1,.)", "Igamc(7.5,.)", "ThresholdQ", "runner01", "runner11"}); err != nil {
+		ctx.Note("concurrent part skipped: the library cannot be instrumented (%v)", err)
+		capped = true
+	} else {
+		for _, res := range m.Results {
+			if res.Found != nil {
+				ctx.Report("concurrent/"+res.Task.Name, res.Found.Violation, map[string]interface{}{"task": res.Task.Name, "choices": res.Found.Choices})
+			}
+		}
+		for _, e := range m.ToolErrors {
+			ctx.Note("tool error (not a violation): %s", e)
+			capped = true
+		}
+		concExecs = m.Execs
+	}
 	cov := common.Coverage{
-		"evaluations":         evals,
-		"distinct_nontrivial": len(shapes),
+		"concurrent_schedules": concExecs,
+		"evaluations":          evals,
+		"distinct_nontrivial":  len(shapes),
 		"rule": "a finite lattice, completely: the listed shapes a (integers and half-integers; thorough: all 10000 in [0.5,5000]) x for each a the arguments {0,-0,-1,-inf,5e-324,1e-300,1e-10}, the three floats around 1 and around a, a*r for 24 ratios in 0.01..20, a+d*sqrt(a) for d=-12..40 step 1/2, 20a+200, the underflow cut-off region 700..746, and the lower tail 10^-k, 3*10^-k (every k<=40, every tenth k<=320; every k<=323 for a<=32) with the floats around 2^e for e in {-1074,-1022,-149,-126,-64,-54..-51,-27,-26}; " +
-			"oracle: 192-bit closed forms of Q(a,x) for integer/half-integer a; checks: |Igamc-Q| <= 1e-12+1e-14a, value in [0,1], exactly 1 for x<=0, non-increasing along the lattice up to the allowance; distinct = number of shapes",
+			"oracle: 192-bit closed forms of Q(a,x) for integer/half-integer a; checks: |Igamc-Q| <= 1e-12+1e-14a, value in [0,1], exactly 1 for x<=0, non-increasing along the lattice up to the allowance; concurrent pairs and triples of Igamc (two shapes), ThresholdQ and two chi-square runners under the controlled scheduler (<= 2 preemptions at accesses to package-level state); distinct = number of shapes",
 		"samples":                     samples,
 		"shapes":                      len(shapes),
 		"worst_fraction_of_allowance": worstFrac,
